@@ -87,6 +87,20 @@ func reachability(db *refDB, repo *gitinterface.Repository, maxRounds int) (*rea
 	type batch struct{ fnew, fold, anew, aold []int }
 	pending := []batch{{}}
 	const batchCallees = 16
+	badNames := []string{}
+	for p, c := range db.class {
+		if c >= vDenied {
+			badNames = append(badNames, "G:"+db.name[p])
+		}
+	}
+	tainted := func(s string) bool {
+		for _, n := range badNames {
+			if strings.Contains(s, n) {
+				return true
+			}
+		}
+		return strings.Contains(s, "G:0x") // Go function unknown to the reference state
+	}
 	for round := 0; ; round++ {
 		if len(pending) == 0 {
 			// next generation: callees and arguments of new shape
@@ -169,6 +183,9 @@ func reachability(db *refDB, repo *gitinterface.Repository, maxRounds int) (*rea
 				continue
 			}
 			shapeRep[s] = x.idx
+			if tainted(s) {
+				continue // never call, nor hand to a caller, a function the oracle rejects (os.exit and friends)
+			}
 			if strings.Contains(s, "G:_printregs") {
 				continue // dumps the VM registers to stderr; neither called nor passed around (covered by the grammar)
 			}
